@@ -238,32 +238,49 @@ fn main() {
         let mut cx = Context::from_waker(Waker::noop());
         let counters: Vec<Option<u32>>;
         let stored: Option<u32>;
-        macro_rules! run_two {
+        // the schedule: names of the ceremonies to poll, in order; each entry polls that ceremony until it suspends in user
+        // validation (if it still has a pending consent) or finishes. Default: A (suspends), B, A.
+        let order: Vec<String> = sc["order"].as_array().map(|a| a.iter().filter_map(|x| x.as_str().map(String::from)).collect())
+            .unwrap_or_else(|| if sc["sequential"].as_bool().unwrap_or(false) { vec!["A".into(), "A".into(), "B".into()] } else { vec!["A".into(), "B".into(), "A".into()] });
+        let names: Vec<String> = { let mut n: Vec<String> = Vec::new(); for o in &order { if !n.contains(o) { n.push(o.clone()); } } n.sort(); n };
+        let pending_of = |n: &str| -> u64 { sc["pending"].get(n).and_then(|v| v.as_u64()).unwrap_or(if n == "A" && !sc["sequential"].as_bool().unwrap_or(false) { 1 } else { 0 }) };
+        macro_rules! run_many {
             ($shared:expr, $read:expr) => {{
                 let shared = $shared;
-                let mut a = Authenticator::new(Aaguid::new_empty(), shared.clone(), user(1));
-                let mut b = Authenticator::new(Aaguid::new_empty(), shared.clone(), user(0));
-                let mut fa = Box::pin(Authenticator::get_assertion(&mut a, mk_req()));
-                let mut fb = Box::pin(Authenticator::get_assertion(&mut b, mk_req()));
-                let mut ra = None;
-                let mut rb = None;
-                // A runs until its consent step suspends, then B completes, then A resumes
-                // (sequential: A runs to completion first)
-                if sc["sequential"].as_bool().unwrap_or(false) {
-                    for _ in 0..100 { if let Poll::Ready(r) = fa.as_mut().poll(&mut cx) { ra = Some(r); break; } }
-                } else if let Poll::Ready(r) = fa.as_mut().poll(&mut cx) { ra = Some(r); }
-                for _ in 0..100 { if let Poll::Ready(r) = fb.as_mut().poll(&mut cx) { rb = Some(r); break; } }
-                for _ in 0..100 { if ra.is_some() { break; } if let Poll::Ready(r) = fa.as_mut().poll(&mut cx) { ra = Some(r); } }
-                let c: Vec<Option<u32>> = [ra, rb].into_iter().map(|r| r.and_then(|x| x.ok()).and_then(|x| x.auth_data.counter)).collect();
-                drop(fa); drop(fb);
+                let mut auths: Vec<_> = names.iter().map(|n| Authenticator::new(Aaguid::new_empty(), shared.clone(), user(pending_of(n)))).collect();
+                let mut results: Vec<Option<Result<get_assertion::Response, StatusCode>>> = names.iter().map(|_| None).collect();
+                {
+                    let mut futs: Vec<_> = auths.iter_mut().map(|a| Box::pin(Authenticator::get_assertion(a, mk_req()))).collect();
+                    let mut suspended_once: Vec<bool> = names.iter().map(|_| false).collect();
+                    for o in &order {
+                        let k = names.iter().position(|n| n == o).unwrap();
+                        if results[k].is_some() { continue; }
+                        // one visit: poll until the first Pending that belongs to the consent step (at most once per ceremony), else to completion
+                        for _ in 0..200 {
+                            match futs[k].as_mut().poll(&mut cx) {
+                                Poll::Ready(r) => { results[k] = Some(r); break; }
+                                Poll::Pending => {
+                                    if pending_of(o) > 0 && !suspended_once[k] { suspended_once[k] = true; break; }
+                                }
+                            }
+                        }
+                    }
+                    // whatever is still unfinished gets a last chance (a ceremony that never finishes is a deadlock)
+                    for k in 0..names.len() {
+                        if results[k].is_none() {
+                            for _ in 0..200 { if let Poll::Ready(r) = futs[k].as_mut().poll(&mut cx) { results[k] = Some(r); break; } }
+                        }
+                    }
+                }
+                let c: Vec<Option<u32>> = results.into_iter().map(|r| r.and_then(|x| x.ok()).and_then(|x| x.auth_data.counter)).collect();
                 (c, $read(&shared))
             }};
         }
         if sc["lock"] == "rwlock" {
-            let (c, s) = run_two!(Arc::new(tokio::sync::RwLock::new(store)), |sh: &Arc<tokio::sync::RwLock<Store>>| sh.try_read().ok().and_then(|g| g.held[0].counter));
+            let (c, s) = run_many!(Arc::new(tokio::sync::RwLock::new(store)), |sh: &Arc<tokio::sync::RwLock<Store>>| sh.try_read().ok().and_then(|g| g.held[0].counter));
             counters = c; stored = s;
         } else {
-            let (c, s) = run_two!(Arc::new(tokio::sync::Mutex::new(store)), |sh: &Arc<tokio::sync::Mutex<Store>>| sh.try_lock().ok().and_then(|g| g.held[0].counter));
+            let (c, s) = run_many!(Arc::new(tokio::sync::Mutex::new(store)), |sh: &Arc<tokio::sync::Mutex<Store>>| sh.try_lock().ok().and_then(|g| g.held[0].counter));
             counters = c; stored = s;
         }
         println!("E2REPLAY {}", json!({"result": {"counters": counters, "stored": stored, "start": start}, "log": *log.lock().unwrap()}));
@@ -782,6 +799,91 @@ fn main() {
         println!("E2REPLAY {}", json!({"result": {"accepted": accepted}, "log": []}));
         return;
     }
+    if sc["op"] == "android_rp" {
+        // (asset-link host, RP ID) pairs through the Android branch of assert_domain, with the shipped suffix list
+        const FP: &str = "B3:5B:68:D5:CE:84:50:55:7C:6A:55:FD:64:B5:1F:EA:C1:10:CB:36:D6:A3:52:1C:59:48:DB:3A:38:0A:34:A9";
+        let v = passkey_client::RpIdVerifier::new(public_suffix::DEFAULT_PROVIDER);
+        let mut out = Vec::new();
+        for c in sc["cases"].as_array().cloned().unwrap_or_default() {
+            let host = c[0].as_str().unwrap_or("example.com").to_string();
+            let rp: Option<String> = c[1].as_str().map(String::from);
+            let url = match url::Url::parse(&format!("https://{}/.well-known/assetlinks.json", host)) { Ok(u) => u, Err(_) => continue };
+            let link = match passkey_client::UnverifiedAssetLink::new("com.example.app", FP, host.clone(), url) { Ok(l) => l, Err(_) => continue };
+            let origin = passkey_client::Origin::Android(link);
+            let r = v.assert_domain(&origin, rp.as_deref()).map(String::from);
+            let eff = rp.clone().unwrap_or(host.clone());
+            use public_suffix::EffectiveTLDProvider;
+            let is_suffix = public_suffix::DEFAULT_PROVIDER.effective_tld_plus_one(&eff).is_err();
+            out.push(json!({"host": host, "rp_id": rp, "accepted": r.is_ok(), "returned": r.ok(), "rp_is_public_suffix": is_suffix}));
+        }
+        println!("E2REPLAY {}", json!({"result": {"cases": out}, "log": []}));
+        return;
+    }
+    if sc["op"] == "store_write" {
+        // write contract of a shipped store: after update_credential / save_credential answered Ok the store holds that value
+        use passkey_authenticator::MemoryStore;
+        let mut old = Passkey::mock(rp.clone()).counter(5).build();
+        old.credential_id = vec![1u8; 16].into();
+        let mut newer = old.clone();
+        newer.counter = Some(6);
+        let mut other = Passkey::mock(rp.clone()).counter(0).build();
+        other.credential_id = vec![2u8; 16].into();
+        let method = sc["method"].as_str().unwrap_or("update_credential").to_string();
+        let user = make_credential::PublicKeyCredentialUserEntity { id: vec![9u8; 8].into(), display_name: None, name: None, icon_url: None };
+        let rpe = make_credential::PublicKeyCredentialRpEntity { id: rp.clone(), name: None };
+        let opts = make_credential::Options { rk: true, up: true, uv: false };
+        let mut polls = 0u64;
+        let (answered_ok, stored_after) = if sc["store_kind"] == "memory" {
+            let mut m = MemoryStore::new();
+            m.insert(old.credential_id.clone().into(), old.clone());
+            if method == "update_credential" {
+                let r = block_on(m.update_credential(newer.clone()), 100, &mut polls);
+                (matches!(r, Some(Ok(()))), m.get(old.credential_id.as_slice()).and_then(|p| p.counter) == Some(6))
+            } else {
+                let r = block_on(m.save_credential(other.clone(), user, rpe, opts), 100, &mut polls);
+                (matches!(r, Some(Ok(()))), m.get(other.credential_id.as_slice()).is_some() && m.get(old.credential_id.as_slice()).is_some())
+            }
+        } else {
+            let mut s: Option<Passkey> = Some(old.clone());
+            if method == "update_credential" {
+                let r = block_on(s.update_credential(newer.clone()), 100, &mut polls);
+                (matches!(r, Some(Ok(()))), s.as_ref().and_then(|p| p.counter) == Some(6))
+            } else {
+                let r = block_on(s.save_credential(other.clone(), user, rpe, opts), 100, &mut polls);
+                (matches!(r, Some(Ok(()))), s.as_ref().map(|p| p.credential_id == other.credential_id) == Some(true))
+            }
+        };
+        println!("E2REPLAY {}", json!({"result": {"answered_ok": answered_ok, "stored_after": !answered_ok || stored_after}, "log": []}));
+        return;
+    }
+    if sc["op"] == "authdata_setters" {
+        // every section setter with a real section: which of AT / ED end up in the encoding, and does it decode again
+        use passkey_types::ctap2::{AttestedCredentialData, AuthenticatorData};
+        let mut cases = Vec::new();
+        let mut add = |name: &str, ad: Option<AuthenticatorData>, want_at: bool, want_ed: bool| {
+            let Some(ad) = ad else { cases.push(json!({"name": name, "at": false, "ed": false, "want_at": want_at, "want_ed": want_ed, "decodes": false, "reencodes_same": false, "built": false})); return; };
+            let v = ad.to_vec();
+            let dec = AuthenticatorData::from_slice(&v).ok();
+            cases.push(json!({"name": name, "at": v[32] & 0x40 != 0, "ed": v[32] & 0x80 != 0, "want_at": want_at, "want_ed": want_ed,
+                              "decodes": dec.is_some(), "reencodes_same": dec.map(|d| d.to_vec() == v).unwrap_or(false), "built": true}));
+        };
+        let key = Passkey::mock(rp.clone()).build().key;
+        let mut pubkey = key.clone();
+        pubkey.params.retain(|(l, _)| *l != coset::Label::Int(-4));
+        let acd = || AttestedCredentialData::new(Aaguid::new_empty(), vec![7u8; 16], pubkey.clone()).ok();
+        let mc_ext = || Some(make_credential::SignedExtensionOutputs { hmac_secret: Some(true), hmac_secret_mc: None });
+        let ga_ext = || Some(get_assertion::SignedExtensionOutputs { hmac_secret: Some(vec![3u8; 32].into()) });
+        let base = || AuthenticatorData::new(&rp, Some(1)).set_flags(Flags::UP);
+        add("attested", acd().map(|a| base().set_attested_credential_data(a)), true, false);
+        add("mc-extensions", base().set_make_credential_extensions(mc_ext()).ok(), false, true);
+        add("ga-extensions", base().set_assertion_extensions(ga_ext()).ok(), false, true);
+        add("attested+mc-extensions", acd().and_then(|a| base().set_attested_credential_data(a).set_make_credential_extensions(mc_ext()).ok()), true, true);
+        add("mc-extensions-none", base().set_make_credential_extensions(None).ok(), false, false);
+        add("ga-extensions-none", base().set_assertion_extensions(None).ok(), false, false);
+        add("set_flags(AT|ED)", Some(base().set_flags(Flags::AT | Flags::ED)), false, false);
+        println!("E2REPLAY {}", json!({"result": {"cases": cases}, "log": []}));
+        return;
+    }
     if sc["op"] == "authdata_from_slice" {
         let n = sc["len"].as_u64().unwrap_or(0) as usize;
         let mut buf = vec![0u8; n];
@@ -877,8 +979,9 @@ fn main() {
         uv: sc["request"]["uv"].as_bool().unwrap_or(false),
     };
     let pin_auth = sc["request"]["pin_auth"].as_bool().unwrap_or(false).then(|| vec![1u8; 16].into());
+    let id_len = sc["request"]["id_len"].as_u64().unwrap_or(16) as usize;
     let list = |v: &Value| -> Option<Vec<webauthn::PublicKeyCredentialDescriptor>> {
-        v.as_array().map(|l| l.iter().map(|x| descriptor(&vec![x.as_u64().unwrap_or(0) as u8; 16])).collect())
+        v.as_array().map(|l| l.iter().map(|x| descriptor(&vec![x.as_u64().unwrap_or(0) as u8; id_len])).collect())
     };
     let unknown_list = || -> Option<Vec<webauthn::PublicKeyCredentialDescriptor>> {
         sc["request"]["allow_list_unknown"].as_bool().unwrap_or(false).then(|| {
